@@ -466,7 +466,7 @@ func persistCase(c *Ctx, o persistObj, second *persistObj) {
 		t := o.fresh()
 		var rerr error
 		if cut%16 == 0 {
-			c.pending([]string{"C18"}, o.kind+"-prefix-kills-process", fmt.Sprintf("%s: ReadFrom of a prefix (around byte %d of %d) ended the process (fatal runtime error)", o.kind, cut, len(raw)), map[string]interface{}{"kind": o.kind, "image_hex": hexStr(raw), "cut_from": cut})
+			c.pending([]string{"C18", "C11"}, o.kind+"-prefix-kills-process", fmt.Sprintf("%s: ReadFrom of a prefix (around byte %d of %d) ended the process (fatal runtime error)", o.kind, cut, len(raw)), map[string]interface{}{"kind": o.kind, "image_hex": hexStr(raw), "cut_from": cut})
 		}
 		res := safely(func() { _, rerr = t.readFrom(wrapReader(bytes.NewReader(raw[:cut]), cut%4, int64(cut))) })
 		c.rep.Ops["ReadFrom.prefix"]++
